@@ -275,7 +275,7 @@ def run(ctx):
 
     # ------------------------------------------------------------------ C12.e
     ctx.rule('C12.e', 'CircuitOperation parameter triple: _is_parameterized_/_parameter_names_ read repetitions, repeat_until and '
-             'the mapped circuit; _resolve_parameters_ reads repetitions, repeat_until and the resolver', floor=3, style='COH')
+             'the mapped circuit; _resolve_parameters_ reads repetitions, repeat_until and the resolver and applies the resolver to repetitions', floor=4, style='COH')
     need = {'_repetitions'}
     for mn in ('_is_parameterized_', '_parameter_names_'):
         fn = repo.method(CO, mn)
@@ -286,6 +286,15 @@ def run(ctx):
     rd = F.self_reads(repo, ci, fn, depth=2)
     miss = {'_repetitions', '_repeat_until', '_param_resolver'} - rd
     ctx.ob('C12.e', f'{CO}._resolve_parameters_', not miss, f'_resolve_parameters_ does not resolve {sorted(miss)}' if miss else '', rel, fn.lineno)
+    # reading `repetitions` only as the default of replace() does not resolve it: the resolver must be applied to it
+    applied = False
+    for c in ast.walk(fn):
+        if isinstance(c, ast.Call) and call_name(c) in ('value_of', 'resolve_parameters'):
+            for a in list(c.args) + [k.value for k in c.keywords]:
+                if any(isinstance(n, ast.Attribute) and n.attr in ('repetitions', '_repetitions') and isinstance(n.value, ast.Name) and n.value.id == 'self' for n in ast.walk(a)):
+                    applied = True
+    ctx.ob('C12.e', f'{CO}._resolve_parameters_:repetitions-resolved', applied,
+           '' if applied else '_resolve_parameters_ never applies the resolver to `repetitions`: a symbolic repetition count stays symbolic after resolution', rel, fn.lineno)
 
     # ------------------------------------------------------------------ C12.h
     ctx.decided.append('C12.h every behaviour protocol of CircuitOperation depends on every field that changes that aspect of the flattened circuit')
